@@ -107,7 +107,7 @@ SPEC = {
         "error_pos_in_range", "tokens_before_error_tile", "lexing_terminates", "read_never_panics",
         "literalIntWith_closed", "int_value_exact", "int_overflow_rejected", "int_rejected_only_when_too_large",
         "literalInt_radix", "token_numeric_dispatch", "lex_float_nearest", "nearest64_unfold",
-        "nearest_correct_partial", "nearest_exact_on_representable"]],
+        "nearest_correct_partial", "nearest_correct", "nearest_exact_on_representable"]],
     "harness": "c10",
     "nontrivial": nontrivial,
     "finding_key": finding_key,
